@@ -26,7 +26,14 @@ func VerifC07_EligibleVictims() {
 	}
 	p := mk("p", root, false)
 	a := mk("a", p, true)
+	// a third, empty leaf that may be priority-fenced: a fence on one child says nothing about its siblings.
+	// (Created before "b" and sorting before it: the engine walks maps in a fixed order, the real code in random order.)
+	af := mk("a-fenced", p, true)
 	b := mk("b", p, true)
+	if vBool("sibling.priorityfence") {
+		af.priorityPolicy = policies.FencePriorityPolicy
+	}
+	af.priorityOffset = int32(vRange("sibling.offset", -3, 3))
 	// offsets on every level, default priority policy on the ask path, B default or priority-fenced
 	a.priorityOffset = int32(vRange("a.offset", -3, 3))
 	p.priorityOffset = int32(vRange("p.offset", -3, 3))
